@@ -58,7 +58,7 @@ RULE = ("op split / class_split: random ITS graphs = (a) fgutils.parse of genera
         "'<,h>' defaults, explicit and implicit bonds, aromatic atoms, branches, rings, node labels; with and without init_aam), "
         "(b) random molecules whose bonds are replaced by a mix of tuple (g,h), list [g,h] and scalar labels with orders in "
         "{0,1,1.5,2,3,4} incl. unchanged bonds, (0,0) and scalar 0, all id schemes and shuffled insertion orders, "
-        "(c) ITS.from_smiles of RDKit-written mapped reactions (these also run the SMILES leg: string -> ITS -> to_smiles -> "
+        "(c) ITS.from_smiles of RDKit-written mapped reactions (these also run the SMILES leg: string -> ITS -> to_smiles -> from_smiles, once more with every map number shifted by 995 / 9990 / 99990, "
         "from_smiles, and, started from the generating graphs without fgutils' reader, ITS(get_its(G,H)) -> to_smiles -> "
         "from_smiles and from_smiles(written reaction) = get_its(G,H)): C/N/O skeletons with orders 1-3, metal-metal "
         "quadruple bonds ('$', Mo/W/Re/Cr with halide/C/O ligands, order 4 <-> 3/2/1/none), benzene/pyridine rings "
@@ -891,6 +891,26 @@ def smiles_round_trip(smiles):
     return None
 
 
+def large_map_leg(smiles):
+    """The same reaction with every map number (and node id) shifted across a decimal boundary (+995: 996..; +9990):
+    the round trip ITS -> to_smiles -> from_smiles must keep every atom and bond, whatever the size of the numbers."""
+    import zlib
+    k = [995, 9990, 995, 99990][zlib.crc32(smiles.encode()) % 4]
+    try:
+        its = ITS.from_smiles(smiles)
+        g = nx.relabel_nodes(its.graph, {n: n + k for n in its.graph.nodes}, copy=True)
+        for n in g.nodes:
+            g.nodes[n]["aam"] = n
+        its_k = ITS(g)
+        s3 = its_k.to_smiles()
+        its3 = ITS.from_smiles(s3)
+        if _its_view(its_k.graph) != _its_view(its3.graph):
+            return ["with all map numbers shifted by %d: ITS.from_smiles(its.to_smiles()) differs from the ITS (via %s)" % (k, s3)]
+    except Exception as e:
+        return ["SMILES round trip with map numbers shifted by %d raised %s: %s" % (k, type(e).__name__, e)]
+    return []
+
+
 def ignore_aam_leg(c):
     """ITS.to_smiles(ignore_aam=True): the result carries no map number and describes the same atoms and bonds as the
     mapped result (RDKit as oracle: canonical SMILES after removing the map numbers from the mapped molecule) and as the
@@ -1019,6 +1039,8 @@ def py_invariants(c, out):
                 msgs.append({"msg": msg, "known_class": KNOWN_CLASS})
             else:
                 msgs.append(msg)
+        elif not in_known_class(c["smiles"]):
+            msgs.extend(large_map_leg(c["smiles"]))
         if "srcG" in c and not in_known_class(c["smiles"]):
             msgs.extend(source_graph_leg(c))
         msgs.extend(rdkit_view_leg(c))
